@@ -1,4 +1,4 @@
-CONSTANTS PS = 4  PBits = 2  MaxAddr = 23  MaxRegions = 2  MaxKFrames = 2  WB = 4  MaxEarly = 2  MaxOps = 8
+CONSTANTS PS = 4  PBits = 2  MaxAddr = 23  MaxRegions = 2  MaxKFrames = 2  WB = 4  MaxEarly = 2  MaxOps = 6
   Family = "all"  AllowFree = FALSE  Mode = "main"  Bug = ""  Emit = FALSE
   Props = {"C01", "C02", "C03"}
 CONSTANT HistMaps <- MCHistMaps
